@@ -30,10 +30,10 @@ import (
 // continues until nothing is runnable — any library goroutine left blocked is a leak.
 
 type C16Spec struct {
-	Bits      []int    `json:"bits"`  // per concurrent generation: modulus length
-	Attrs     []int    `json:"attrs"` // per generation: number of bases
+	Bits      []int    `json:"bits"`       // per concurrent generation: modulus length
+	Attrs     []int    `json:"attrs"`      // per generation: number of bases
 	FindPrime int      `json:"find_prime"` // >0: also run keyproof.findSafePrime(size) as a task
-	Procs     int      `json:"procs"` // GOMAXPROCS = number of workers per generation
+	Procs     int      `json:"procs"`      // GOMAXPROCS = number of workers per generation
 	LibSeed   uint64   `json:"lib_seed"`
 	Schedule  []uint16 `json:"schedule"`
 	Buggify   []string `json:"buggify"`
@@ -44,6 +44,9 @@ type C16Spec struct {
 	FreeRun bool `json:"free_run"`
 	StallMs int  `json:"stall_ms"`
 	Rounds  int  `json:"rounds"`
+	// entropy fault: crypto/rand reads number RandFailAt .. RandFailAt+RandFailN-1 fail (RandFailN 0: all later ones)
+	RandFailAt int `json:"rand_fail_at,omitempty"`
+	RandFailN  int `json:"rand_fail_n,omitempty"`
 }
 
 func drawC16(rt *rapid.T) C16Spec {
@@ -68,12 +71,18 @@ func drawC16(rt *rapid.T) C16Spec {
 	if rapid.Bool().Draw(rt, "buggify") {
 		s.Buggify = []string{"safeprime.Generate:extra-stop-check"}
 	}
+	if rapid.IntRange(0, 4).Draw(rt, "randfail") == 0 {
+		s.RandFailAt = rapid.IntRange(1, 4000).Draw(rt, "randfailat")
+		s.RandFailN = rapid.SampledFrom([]int{0, 0, 1, 2, 5}).Draw(rt, "randfailn")
+		s.FindPrime = 0
+	}
 	if rapid.IntRange(0, 5).Draw(rt, "freerun") == 0 {
 		s.FreeRun = true
 		s.Procs = rapid.SampledFrom([]int{4, 8, 16}).Draw(rt, "freeprocs")
 		s.StallMs = rapid.SampledFrom([]int{2, 5, 10, 20, 40}).Draw(rt, "stall")
 		s.Rounds = rapid.IntRange(10, 40).Draw(rt, "rounds")
 		s.Bits, s.Attrs, s.FindPrime, s.Schedule = []int{128}, []int{2}, 0, nil
+		s.RandFailAt, s.RandFailN = 0, 0
 	}
 	return s
 }
@@ -151,10 +160,10 @@ func wellFormed(sk *gabikeys.PrivateKey, pk *gabikeys.PublicKey, bits, attrs int
 }
 
 type c16Out struct {
-	sk  *gabikeys.PrivateKey
-	pk  *gabikeys.PublicKey
-	err error
-	fp  *big.Int
+	sk   *gabikeys.PrivateKey
+	pk   *gabikeys.PublicKey
+	err  error
+	fp   *big.Int
 	done bool
 }
 
@@ -176,8 +185,12 @@ func execC16(r *kernel.Run, s C16Spec) {
 	var sc *kernel.BSched
 	prevReader := cryptorand.Reader
 	sched := append([]uint16{}, s.Schedule...)
+	// a panic in one of the library's own goroutines takes the process down: leave the in-flight spec behind
+	markPending("C16", s, "generation")
+	defer clearPending()
 	panicked, deadlock := kernel.InBubbleLeaky(r.T, func() {
 		sc = kernel.NewBSched(sched, s.LibSeed, buggify, nil, prevReader)
+		sc.FailFrom, sc.FailCount = s.RandFailAt, s.RandFailN
 		cryptorand.Reader = sc
 		setHooks(&hookSet{yield: sc.Yield, spawned: sc.Spawned, exited: sc.Exited, buggify: sc.BuggifyAt})
 		defer func() {
@@ -215,6 +228,9 @@ func execC16(r *kernel.Run, s C16Spec) {
 	for _, b := range s.Buggify {
 		r.Stats().Faults["buggify:"+b]++
 	}
+	if sc.Failed > 0 {
+		r.Stats().Faults["entropy-read-error"] += sc.Failed
+	}
 	for k, v := range states {
 		r.Stats().Probes["task:"+k] += v
 	}
@@ -230,6 +246,14 @@ func execC16(r *kernel.Run, s C16Spec) {
 			continue
 		}
 		if o.err != nil {
+			if sc.Failed > 0 {
+				// the entropy source failed: an error is the right answer (and no key must come with it)
+				r.Probe("generation-failed-on-entropy-error")
+				if o.sk != nil || o.pk != nil {
+					r.Violate("C16:key-returned-with-error", nil, "GenerateKeyPair %d returned %v together with a key", i, o.err)
+				}
+				continue
+			}
 			r.Violate("C16:generation-failed", nil, "GenerateKeyPair %d: %v", i, o.err)
 			continue
 		}
